@@ -22,7 +22,8 @@ RULE = (
     "bytes zero-padded to 8; Decode of that frame must return (binding name, value).  Probe frames "
     "with non-matching (id, bus): unknown id, same id on another bus, bus differing in the last "
     "character, a proper prefix of the bus name - must be reported unknown.  Static and dynamic "
-    "answers must agree.  ASan+UBSan throughout (fixed-size bus/data arrays).  distinct = (binding "
+    "answers must agree.  ASan+UBSan throughout (fixed-size bus/data arrays); on the thorough tier "
+    "every 8th batch also runs a sample, unsanitized, under valgrind memcheck.  distinct = (binding "
     "shape signature, bus length, value class, probe kind)."
 )
 ASSUMPTIONS = [
@@ -39,7 +40,7 @@ def bus_hex(bus):
     return (bus.encode() + b"\0" * 4)[:4].hex()
 
 
-def check_batch(run, b, nrand):
+def check_batch(run, b, nrand, valgrind=False):
     sch = b.sch
     if not b.can_bindings:
         return
@@ -87,6 +88,21 @@ def check_batch(run, b, nrand):
             for op in ("CSD", "CDD"):
                 lines.append(op + " " + frame)
                 meta.append((op + "-unknown", what, pid, pbus, None, None, 0))
+    if valgrind:
+        # thorough tier: a sample of the commands through an unsanitized build under valgrind memcheck
+        # (uninitialised bytes in the fixed-size bus / data arrays are invisible to ASan)
+        from ..mon import sanit
+
+        rc, log = sanit.compile_cxx(["vf_harness.cpp"], "vf_harness_plain", [".", cpp.THIRD], b.dir, flags=sanit.PLAIN_CXX_FLAGS)
+        if rc == 0:
+            sample = [l for l in lines if l.startswith(("CSE", "CSD", "CDD"))][:150]
+            vrc, vout, verr = sanit.valgrind_run(os.path.join(b.dir, "vf_harness_plain"), "".join(l + "\n" for l in sample), b.dir, args=[b.refl])
+            run.count("valgrind_runs")
+            if vrc == 99:
+                run.violation("valgrind memcheck reports an error in the C++ CAN wrappers: %s" % (verr.strip().split("\n")[0][:200]), dict(b.case, valgrind=verr[-2500:]))
+                return
+            if vrc is None:
+                run.inconclusive_because("valgrind timed out")
     outputs, crashes = cpp.run(b.binary, lines, b.dir, reflection=b.refl)
     if PP.report_crashes(run, crashes, lines, b.case, "CAN wrappers"):
         return
@@ -162,7 +178,7 @@ def run(run):
                 continue
             b = PP.Batch(run, bi, root)
             if b.ok:
-                check_batch(run, b, run.pick(10, 30))
+                check_batch(run, b, run.pick(10, 30), valgrind=(not run.quick and bi % 8 == 0))
             b.cleanup()
     finally:
         shutil.rmtree(root, ignore_errors=True)
